@@ -96,6 +96,7 @@ static List copyResultInterpList(List ilist);
 
 /* utility functions */
 static void _errormsg(char *msg);
+static int _str_match(char *s, char *key);
 static void _warnmsg(char *msg);
 static long _strtolong(char *str);
 static double _strtodouble(char *str);
@@ -216,6 +217,10 @@ spec_ping_period: TOK_PING_PERIOD TOK_NUMERIC_VAL {
 }
 ;
 string_list     : string_list TOK_STRING_VAL {
+    /* plug names address the device: two plugs of one name would let
+     * two nodes share a plug */
+    if (list_find_first((List)$1, (ListFindF)_str_match, $2))
+        _errormsg("duplicate plug name");
     list_append((List)$1, xstrdup($2));
     $$ = $1;
 }               | TOK_STRING_VAL {
@@ -846,6 +851,11 @@ static void _doubletotv(struct timeval *tv, double val)
 {
     tv->tv_sec = (val * 10.0)/10; /* crude round-down without -lm */
     tv->tv_usec = ((val - tv->tv_sec) * 1000000.0);
+}
+
+static int _str_match(char *s, char *key)
+{
+    return (strcmp(s, key) == 0);
 }
 
 static void _errormsg(char *msg)
